@@ -207,7 +207,15 @@ func (c *RollingFileAppender) Write(b []byte) {
 	verifPoint("roll.write.afterrotate")
 	if file := c.file.Load(); file != nil {
 		verifPoint("roll.write.loaded")
-		_, _ = file.Write(b)
+		_, err := file.Write(b)
+		if pe, ok := err.(*os.PathError); ok && pe.Err == os.ErrClosed {
+			// This writer was overtaken by two rotations between loading the
+			// file and writing to it, so the file has been retired and closed
+			// in the meantime. Nothing was written: use the current file.
+			if cur := c.file.Load(); cur != nil && cur != file {
+				_, _ = cur.Write(b)
+			}
+		}
 	}
 }
 
